@@ -125,6 +125,7 @@ type Sched struct {
 	closedChan map[uintptr]bool
 	Log        []string
 	OnAbort    []func()
+	MapAlts    bool // offer reversed map-iteration order as an environment alternative
 	progress   *int64
 }
 
